@@ -31,12 +31,11 @@ func (l *LineFilterPlanner) Process(ctx *shared.PlannerContext) (sql.ISelect, er
 	case "|~":
 		likeStr, isInsensitive, isLike := l.re2Like()
 		if isLike {
-			l.Val = likeStr
 			like := "like"
 			if isInsensitive {
 				like = "ilike"
 			}
-			clause, err = l.doLike(like)
+			clause, err = (&LineFilterPlanner{Op: l.Op, Val: likeStr}).doLike(like)
 		} else {
 			clause = sql.Eq(&sqlMatch{
 				col:     sql.NewRawObject("string"),
@@ -47,12 +46,11 @@ func (l *LineFilterPlanner) Process(ctx *shared.PlannerContext) (sql.ISelect, er
 	case "!~":
 		likeStr, isInsensitive, isLike := l.re2Like()
 		if isLike {
-			l.Val = likeStr
 			like := "notLike"
 			if isInsensitive {
 				like = "notILike"
 			}
-			clause, err = l.doLike(like)
+			clause, err = (&LineFilterPlanner{Op: l.Op, Val: likeStr}).doLike(like)
 		} else {
 			clause = sql.Eq(&sqlMatch{
 				col:     sql.NewRawObject("string"),
